@@ -43,6 +43,31 @@ Lemma compare_icase_shipped_refuted :
   compare_icase_shipped [128] [97] = (-1)%Z /\ strcmp_sign (to_lower [128]) (to_lower [97]) = 1%Z.
 Proof. vm_compute. repeat split; reflexivity. Qed.
 
+(** * equal_icase / less_icase *)
+Theorem equal_icase_spec : forall a b, equal_icase a b = true <-> to_lower a = to_lower b.
+Proof.
+  intros a b. unfold equal_icase. destruct (Nat.eqb_spec (length a) (length b)) as [L|L].
+  - clear L. revert b. induction a as [|x a IH]; intros [|y b]; cbn [all2b to_lower map]; split; intros H; try reflexivity; try discriminate.
+    + apply andb_true_iff in H. destruct H as [H1 H2]. apply N.eqb_eq in H1. apply IH in H2. unfold to_lower in H2. now rewrite H1, H2.
+    + inversion H as [[H1 H2]]. rewrite H1, N.eqb_refl. cbn [andb]. now apply IH.
+  - split; [discriminate|]. intros H. exfalso. apply L. unfold to_lower in H.
+    rewrite <- (map_length to_lower_char a), <- (map_length to_lower_char b). now rewrite H.
+Qed.
+
+Theorem less_icase_is_strcmp : forall a b,
+  less_icase a b = (strcmp_sign (to_lower a) (to_lower b) =? -1)%Z.
+Proof.
+  induction a as [|x a IH]; intros [|y b]; cbn [less_icase strcmp_sign to_lower map]; try reflexivity.
+  destruct (N.compare_spec (to_lower_char x) (to_lower_char y)) as [E|L|G].
+  - rewrite E, N.ltb_irrefl. apply IH.
+  - apply N.ltb_lt in L. now rewrite L.
+  - assert (H1 : (to_lower_char x <? to_lower_char y) = false) by (apply N.ltb_ge; lia).
+    apply N.ltb_lt in G. now rewrite H1, G.
+Qed.
+
+Corollary less_icase_is_compare_icase : forall a b, less_icase a b = (compare_icase a b =? -1)%Z.
+Proof. intros a b. rewrite compare_icase_is_strcmp. apply less_icase_is_strcmp. Qed.
+
 (** * starts_with / ends_with / contains *)
 Theorem starts_with_spec : forall s m, starts_with s m = true <-> exists t, s = m ++ t.
 Proof.
